@@ -154,6 +154,7 @@ def work(job):
                 rec["path"] = out["paths"] - 1
                 out["obligations"].append(rec)
             first = False
+        out["slow"] = sorted([(o["secs"], o["name"], o["route"]) for o in out["obligations"]], reverse=True)[:3]
         out["forced"] = ex.infeasible
         out["feas"] = dict(STATS)
         # encoding validation + reachability witness (shard 0 only)
@@ -305,7 +306,7 @@ def main(modname, argv=None):
             for r in pool.imap_unordered(work, jobs):
                 results.append(r)
                 if args.verbose:
-                    print("  done %s#%d: %d obligations, %d paths, %.1fs%s" % (r["case"], r["shard"], len(r["obligations"]), r["paths"], r["secs"], " ERROR" if r["error"] else ""), flush=True)
+                    print("  done %s#%d: %d obligations, %d paths, %.1fs%s" % (r["case"], r["shard"], len(r["obligations"]), r["paths"], r["secs"], " ERROR" if r["error"] else ""), r.get("slow"), flush=True)
     return finish(mod, modname, prop, args, seed, cases, results, t0)
 
 
